@@ -173,7 +173,8 @@ class Runner:
         def fn(x):
             calls[x] += 1
             return (x, calls[x])
-        self.up = lazy_dataset.new(list(range(n))).map(fn)
+        # dict-backed (keys k0, k1, ...): an index form i >= 100 is ds['k<i-100>']
+        self.up = lazy_dataset.new({f'k{j}': j for j in range(n)}).map(fn)
 
     def _get(self, h):
         k = h - self.base
@@ -190,10 +191,13 @@ class Runner:
                 self.h[-1] = self.up.diskcache(self.path, reuse=a['reuse'], clear=a['clear'])
             elif kind == 'access':
                 import numpy as np
-                idx = np.int64(a['i']) if a['np'] else int(a['i'])
+                if a['i'] >= 100:
+                    idx = f"k{a['i'] - 100}"
+                else:
+                    idx = np.int64(a['i']) if a['np'] else int(a['i'])
                 ds = self._get(a['h'])
                 v = None
-                if self.iter_mode and not a['np'] and idx >= 0:
+                if self.iter_mode and not a['np'] and a['i'] < 100 and idx >= 0:
                     cur = self.its.get(a['h'])
                     if cur is None and idx == 0:
                         cur = self.its[a['h']] = [iter(ds), 0]
@@ -642,6 +646,8 @@ def random_lifecycle(rng):
             else:
                 i = rng.randint(-n - 1, n) if rng.random() < 0.1 else rng.randint(-n, n - 1)
                 p = rng.random() < 0.25
+                if rng.random() < 0.2:          # by key
+                    i, p = 100 + rng.randrange(n), False
             hist.append(_act('access', h=rng.choice(live), i=i, np_=p))
         elif kind == 'copy':
             h = rng.choice(live)
@@ -678,7 +684,7 @@ def short(hist):
         if k == 'open':
             out.append(f"open(reuse={'T' if a['reuse'] else 'F'},clear={'T' if a['clear'] else 'F'})")
         elif k == 'access':
-            out.append(f"ds{a['h']}[{'np.int64(%d)' % a['i'] if a['np'] else a['i']}]")
+            out.append(f"ds{a['h']}[{'np.int64(%d)' % a['i'] if a['np'] else (repr('k%d' % (a['i'] - 100)) if a['i'] >= 100 else a['i'])}]")
         elif k == 'kill':
             out.append('KILL')
         else:
